@@ -848,6 +848,54 @@ GRP_DECL_CONTRACT(option, options_);
 GRP_DECL_CONTRACT(multi_option, multi_options_);
 GRP_DECL_CONTRACT(toggle, toggles_);
 
+/* ======================= usage text (C15) ======================= */
+/* std::ostream seen through what line breaking needs: the formatting width, the column, the absolute position, and a monitor of C15:
+ * how many words were written, the identity of word number g_w, and whether some line grew beyond max_width although no word on it was
+ * longer than a whole line (limit) - "no line exceeds the width unless a single unbreakable word forces it" */
+struct ostream_m { long tellp; long col; int width; size_t words; size_t w_id; long max_width; long limit; nbool forced; nbool bad; };
+#define OS_WORDMAX (1 << 20)
+static inline long os_tellp(const struct ostream_m *s) { return s->tellp; }
+static inline void os_setw(struct ostream_m *s, int w) { s->width = w; }
+static inline void os_put_char(struct ostream_m *s) { long n = s->width > 1 ? s->width : 1; s->width = 0; s->col += n; s->tellp += n; }                       /* s << ' ' */
+static inline void os_endl(struct ostream_m *s) { s->col = 0; s->tellp += 1; s->forced = 0; }                                                                  /* s << std::endl */
+static inline void os_put_word(struct ostream_m *s, const struct ostr *w)                                                                                      /* s << word */
+{
+    long n = (long)w->len > (long)s->width ? (long)w->len : (long)s->width; s->width = 0;
+    if ((long)w->len + 1 > s->limit) s->forced = 1;
+    s->col += n; s->tellp += n;
+    if (s->col > s->max_width && !s->forced) s->bad = 1;
+    if (s->words == g_w) s->w_id = w->id;
+    s->words = s->words + 1;
+}
+extern size_t g_words_n, g_words_w_id;                          /* what the last split() returned (recorded by the stub) */
+struct owords { size_t n; size_t w_id; };                       /* the vector split() returned: its length and the identity of word number g_w */
+void lang_split_blank(struct owords *out, const struct ostr *in)
+__CPROVER_requires(nitro_exc == 0 && __CPROVER_rw_ok(out, sizeof(*out)) && __CPROVER_r_ok(in, sizeof(*in)))
+__CPROVER_assigns(*out, g_words_n, g_words_w_id)
+__CPROVER_ensures(nitro_exc == 0 && out->n >= 1 && out->n <= 1024 && g_words_n == out->n && g_words_w_id == out->w_id);                                /* C17: at least one piece; the bound keeps `space` inside int (assumption A-text: < 2^30 characters) */
+struct ostr owords_at(const struct owords *v, size_t i)
+__CPROVER_requires(nitro_exc == 0 && __CPROVER_r_ok(v, sizeof(*v)) && i < v->n)
+__CPROVER_assigns()
+__CPROVER_ensures(nitro_exc == 0 && __CPROVER_return_value.len < OS_WORDMAX && (i == g_w ==> __CPROVER_return_value.id == v->w_id));
+static inline void oword_tabs_to_blanks(struct ostr *w) { }    /* replace_all(word, "\t", " "): same length, same word up to the kind of blank (C17) */
+#define FP_INV (!s->bad && s->max_width == (long)max_width && s->limit == (long)max_width - (long)left_pad && s->width >= 0 && s->width <= 4096 && \
+    (s->forced || space <= 0 || s->col + (s->width > 1 ? (long)s->width - 1 : 0) <= (long)max_width - (long)space))
+#define NITRO_LOOP_format_padded_1 \
+  __CPROVER_assigns(i_, space, s->tellp, s->col, s->width, s->words, s->w_id, s->forced, s->bad) \
+  __CPROVER_loop_invariant(nitro_words.n <= 1024 && i_ <= nitro_words.n && s->words == i_ && (g_w < i_ ==> s->w_id == nitro_words.w_id) && \
+      s->col >= 0 && s->col <= 4096 + (long)(i_ + 1) * (OS_WORDMAX + 4096) && s->tellp >= -1 && s->tellp <= 4096 + (long)(i_ + 1) * (OS_WORDMAX + 4097) && \
+      (long)space <= (long)max_width && (long)space >= -(long)i_ * OS_WORDMAX - OS_WORDMAX && FP_INV) \
+  __CPROVER_decreases(nitro_words.n - i_)
+struct ostream_m *format_padded(struct ostream_m *s, const struct ostr *in, int left_pad, int max_width)
+__CPROVER_requires(nitro_exc == 0 && O_OBJ_OR_OK(format_padded, s) && O_OBJ_OR_ROK(format_padded, in) && 0 <= left_pad && left_pad <= max_width && max_width <= 4096)
+__CPROVER_requires(s->tellp == s->col && s->col >= 0 && s->col <= 4096 && s->width == 0 && s->words == 0 && !s->bad && !s->forced &&       /* a local stream that holds no line break yet: position == column */
+                   s->max_width == (long)max_width && s->limit == (long)max_width - (long)left_pad)
+__CPROVER_assigns(*s, nitro_exc, g_words_n, g_words_w_id)
+__CPROVER_ensures(nitro_exc == 0 && __CPROVER_return_value == s)
+__CPROVER_ensures(!s->bad)                                                                           /*@ no_line_exceeds_the_width_unless_a_single_unbreakable_word_forces_it */
+__CPROVER_ensures(s->words == g_words_n && (g_w < g_words_n ==> s->w_id == g_words_w_id))   /*@ every_word_is_written_exactly_once_in_order */
+__CPROVER_ensures(s->width == 0);                                                                    /*@ leaves_no_pending_width_behind */
+
 /* ---- arguments: positionals by index ---- */
 /* the implicit int -> std::size_t conversion of the argument of at(): modular, well defined ([conv.integral]) - spelled without a cast so that
  * the conversion check of the verifier is not raised on defined behaviour */
